@@ -304,10 +304,14 @@ func catalogue() []entry {
 			deg := 1 + g.Intn(2)
 			span := []float64{0.5, 0.75, 1}[g.Intn(3)]
 			xs := probeXs(g, 3)
-			return call{desc: fmt.Sprintf("fresh=%v degree=%d span=%v", fresh, deg, span), run: func(r *R) {
+			sorted := g.Chance(1, 3)
+			return call{desc: fmt.Sprintf("fresh=%v sorted-input=%v degree=%d span=%v", fresh, sorted, deg, span), run: func(r *R) {
 				f := p.loess // shared closure built before the run
 				if fresh {
 					f = fit.LOESS(p.fl[2], p.fl[3], deg, span)
+				}
+				if sorted {
+					f = fit.LOESS(p.sx, p.sy, deg, span) // already ascending: no defensive copy is made
 				}
 				for _, x := range xs {
 					r.F(f(x))
@@ -401,9 +405,101 @@ func catalogue() []entry {
 						_ = s1.String()
 					}
 					r.F(s1.StdDev()).F(s1.Mean())
-					if math.Float64bits(s1.StdDev()) != math.Float64bits(s2.StdDev()) || s1 != s2 {
+					// compared through the accessors (the struct need not be comparable)
+					same := s1.Count == s2.Count && math.Float64bits(s1.Total) == math.Float64bits(s2.Total) &&
+						math.Float64bits(s1.Min) == math.Float64bits(s2.Min) && math.Float64bits(s1.Max) == math.Float64bits(s2.Max) &&
+						math.Float64bits(s1.Mean()) == math.Float64bits(s2.Mean()) && math.Float64bits(s1.RMS()) == math.Float64bits(s2.RMS()) &&
+						math.Float64bits(s1.Variance()) == math.Float64bits(s2.Variance())
+					if math.Float64bits(s1.StdDev()) != math.Float64bits(s2.StdDev()) || !same {
 						r.Fail("two StreamStats fed the same values differ (%v vs %v); one had its statistics read between Adds", s1.String(), s2.String())
 					}
+				}
+			}}
+		}),
+		E("buffer-reuse", []string{}, func(g simkit.G, p *pool) call {
+			// the caller keeps ONE buffer, fills it, calls, refills it with other
+			// contents and calls again: the second answer must be the answer for the
+			// new contents (compared with the same call on a fresh slice holding them).
+			// An implementation that remembers a slice by identity instead of by
+			// value gets this wrong.
+			which := g.Intn(6)
+			a := append([]float64(nil), p.fl[2]...)
+			b := append([]float64(nil), p.fl[3]...) // same length as a
+			t1 := append([]int(nil), p.ints[0]...)
+			t2 := make([]int, len(t1)) // another tie vector with the same sum and length: a rotation, or a reversal
+			for i := range t1 {
+				t2[i] = t1[len(t1)-1-i]
+			}
+			tot := 0
+			for _, k := range t1 {
+				tot += k
+			}
+			n1 := 1 + g.Intn(maxInt(tot-1, 1))
+			u := float64(g.Range(0, n1*(tot-n1)))
+			return call{desc: fmt.Sprintf("variant %d", which), run: func(r *R) {
+				same := func(name string, f func(buf []float64) *R) {
+					buf := make([]float64, len(a))
+					copy(buf, a)
+					f(buf)
+					copy(buf, b)
+					got := f(buf)
+					want := f(append([]float64(nil), b...))
+					r.I(int(got.hash() >> 40))
+					if got.hash() != want.hash() {
+						r.Fail("%s called on a buffer, then again on the same buffer refilled with other values, answers differently from the same call on a fresh slice holding those values", name)
+					}
+				}
+				switch which {
+				case 0:
+					tb := make([]int, len(t1))
+					f := func(t []int) *R {
+						d := stats.UDist{N1: n1, N2: tot - n1, T: t}
+						return (&R{}).F(d.PMF(u)).F(d.CDF(u))
+					}
+					copy(tb, t1)
+					f(tb)
+					copy(tb, t2)
+					got, want := f(tb), f(append([]int(nil), t2...))
+					r.I(int(got.hash() >> 40))
+					if got.hash() != want.hash() {
+						r.Fail("UDist with a tie vector held in a reused buffer (refilled between two calls) answers PMF/CDF for the old ties")
+					}
+				case 1:
+					same("MannWhitneyUTest", func(buf []float64) *R {
+						res, err := stats.MannWhitneyUTest(buf, p.fl[4], stats.LocationDiffers)
+						o := (&R{}).Err(err)
+						if res != nil {
+							o.F(res.U).F(res.P)
+						}
+						return o
+					})
+				case 2:
+					same("Sample statistics", func(buf []float64) *R {
+						sm := stats.Sample{Xs: buf}
+						lo, hi := sm.Bounds()
+						return (&R{}).F(sm.Mean()).F(sm.Variance()).F(sm.Quantile(0.3)).F(sm.IQR()).F(lo).F(hi).F(stats.GeoMean(buf))
+					})
+				case 3:
+					same("LOESS / PolynomialRegression", func(buf []float64) *R {
+						f := fit.LOESS(buf, p.fl[2], 1, 0.75)
+						pr := fit.PolynomialRegression(buf, p.fl[2], nil, 2)
+						return (&R{}).F(f(0.5)).F(f(3)).Fs(pr.Coefficients)
+					})
+				case 4:
+					same("KDE", func(buf []float64) *R {
+						k := &stats.KDE{Sample: stats.Sample{Xs: buf}, Bandwidth: 0.7}
+						return (&R{}).F(k.PDF(1)).F(k.CDF(1))
+					})
+				default:
+					same("t-tests / QuantileCI.SampleCI", func(buf []float64) *R {
+						o := &R{}
+						t, err := stats.PairedTTest(buf, p.fl[2], 0, stats.LocationDiffers)
+						encT(o, t, err)
+						t, err = stats.OneSampleTTest(stats.Sample{Xs: buf}, 0.5, stats.LocationLess)
+						encT(o, t, err)
+						q, lo, hi := stats.QuantileCI(len(buf), 0.5, 0.9).SampleCI(stats.Sample{Xs: buf})
+						return o.F(q).F(lo).F(hi)
+					})
 				}
 			}}
 		}),
@@ -444,6 +540,9 @@ func catalogue() []entry {
 				r.F(s.Map(x)).F(s.Unmap(0.3))
 				ma, mi := s.Ticks(o)
 				r.Fs(ma).Fs(mi).I(s.CountTicks(1))
+				if tl, ok := s.TicksAtLevel(guess % 3).([]float64); ok {
+					r.Fs(tl)
+				}
 				lv, ok := o.FindLevel(s, guess)
 				r.I(lv).B(ok)
 				lv, ok = o.FindLevel(p.lin[0], guess)
